@@ -40,7 +40,7 @@ ASSUMPTIONS = [
     'TauREx-HDF5 files are written by the harness with h5py with the dataset names TaurexSpectrum reads',
 ]
 _Q = {'array': 300, 'text': 120, 'hdf5': 100}
-_T = {'array': 3000, 'text': 1000, 'hdf5': 800}
+_T = {'array': 1200, 'text': 400, 'hdf5': 300}
 BUDGET = {
     'quick': [dict(name='main', env={}, shards=4, cases=_Q)],
     'thorough': [dict(name='main', env={}, shards=16, cases=_T)],
